@@ -410,16 +410,25 @@ class AttributeCollection(MutableMapping[int, Attribute]):
         return flag, attr, data[3 : length + 3]
 
     def parse(self, data: Buffer, negotiated: Negotiated) -> AttributeCollection:
-        if not data:
-            return self
+        # One attribute per iteration.  This used to be `return self.parse(left, negotiated)`
+        # after every attribute, one stack frame each: a valid UPDATE carrying a thousand
+        # (unknown, optional) attributes fits in 4096 octets and ended in RecursionError.
+        while data:
+            left = self._parse_one(data, negotiated)
+            if left is None:
+                break
+            data = left
+        return self
 
+    def _parse_one(self, data: Buffer, negotiated: Negotiated) -> Buffer | None:
+        """Parse the attribute at the start of data; return what follows it, None to stop."""
         try:
             # We do not care if the attribute are transitive or not as we do not redistribute
             flag = Attribute.Flag(data[0])
             aid = data[1]
         except IndexError:
             self.add(TreatAsWithdraw())
-            return self
+            return None
 
         try:
             offset = 3
@@ -430,7 +439,7 @@ class AttributeCollection(MutableMapping[int, Attribute]):
                 length = (length << 8) + data[3]
         except IndexError:
             self.add(TreatAsWithdraw(aid))
-            return self
+            return None
 
         data = data[offset:]
 
@@ -438,7 +447,7 @@ class AttributeCollection(MutableMapping[int, Attribute]):
         # block is malformed; it must not be read as a shorter attribute
         if len(data) < length:
             self.add(TreatAsWithdraw(aid))
-            return self
+            return None
 
         left = data[length:]
         attribute = data[:length]
@@ -466,13 +475,13 @@ class AttributeCollection(MutableMapping[int, Attribute]):
                 ),
                 'parser',
             )
-            return self.parse(left, negotiated)
+            return left
 
         # handle the attribute if we know it
         if Attribute.registered(aid, flag):
             if length == 0 and kls and not kls.VALID_ZERO:
                 self.add(TreatAsWithdraw(aid))
-                return self.parse(left, negotiated)
+                return left
 
             try:
                 # RFC 7606 section 7.3: the NEXT_HOP attribute carries an IPv4 address, any other
@@ -483,7 +492,7 @@ class AttributeCollection(MutableMapping[int, Attribute]):
             except (IndexError, ValueError) as exc:
                 if kls and kls.TREAT_AS_WITHDRAW:
                     self.add(TreatAsWithdraw(aid))
-                    return self.parse(left, negotiated)
+                    return left
                 # DISCARD was honoured for Notify below but not here, so an attribute
                 # RFC 7606 says to drop escaped as a raw ValueError instead: AGGREGATOR
                 # at any length but 0 or 6 came out of Update.unpack_message untyped,
@@ -491,19 +500,19 @@ class AttributeCollection(MutableMapping[int, Attribute]):
                 # into a session reset
                 if kls and kls.DISCARD:
                     self.add(Discard())
-                    return self.parse(left, negotiated)
+                    return left
                 raise exc
             except Notify as exc:
                 if kls and kls.TREAT_AS_WITHDRAW:
                     self.add(TreatAsWithdraw())
-                    return self.parse(left, negotiated)
+                    return left
                 if kls and kls.DISCARD:
                     self.add(Discard())
-                    return self.parse(left, negotiated)
+                    return left
                 raise exc
 
             self.add(decoded)
-            return self.parse(left, negotiated)
+            return left
 
         # Note: Unknown attributes are handled below via GenericAttribute for transitive
         # attributes, or logged/discarded for others. This differs from capability's
@@ -526,7 +535,7 @@ class AttributeCollection(MutableMapping[int, Attribute]):
                     ),
                     'parser',
                 )
-                return self.parse(left, negotiated)
+                return left
             # RFC 7606 section 3.c: Optional or Transitive bits in conflict with the
             # attribute's definition are malformed, treat-as-withdraw unless the class says otherwise
             if not (kls and kls.TREAT_AS_WITHDRAW):
@@ -539,7 +548,7 @@ class AttributeCollection(MutableMapping[int, Attribute]):
                 ),
                 'parser',
             )
-            return self.parse(left, negotiated)
+            return left
 
         # it is an unknown transitive attribute we need to pass on
         if flag & Attribute.Flag.TRANSITIVE:
@@ -553,16 +562,16 @@ class AttributeCollection(MutableMapping[int, Attribute]):
                 )
             except IndexError:
                 self.add(TreatAsWithdraw(aid), attribute)
-                return self.parse(left, negotiated)
+                return left
             self.add(decoded_generic, attribute)
-            return self.parse(left, negotiated)
+            return left
 
         # it is an unknown non-transitive attribute we can ignore.
         log.debug(
             lambda: 'ignoring unknown non-transitive attribute (flag 0x{:02X}, aid 0x{:02X})'.format(flag, aid),
             'parser',
         )
-        return self.parse(left, negotiated)
+        return left
 
     def merge_attributes(self) -> None:
         as2path_attr = self[Attribute.CODE.AS_PATH]
